@@ -98,12 +98,12 @@ func (c *aeCtx) withRetries(root *ssa.Function, body func()) (oof string) {
 
 // override: required relation of one term between individuals 0 (x) and 1 (y)
 type override struct {
-	rel    *int            // x ? y on this term: -1, 0, 1
-	xConst *constant.Value // x's value is this constant
-	yConst *constant.Value
-	xGap   bool // x's value is not one of the pool constants (e.g. non-empty, unknown word)
-	yGap   bool
-	free   bool // no requirement
+	rel     *int            // x ? y on this term: -1, 0, 1
+	xConst  *constant.Value // x's value is this constant
+	yConst  *constant.Value
+	xGap    bool // x's value is not one of the pool constants (e.g. non-empty, unknown word)
+	yGap    bool
+	free    bool // no requirement
 	boolVal bool // xConst/yConst are booleans (position 0/1)
 	nilVal  int  // 1: both nil, 2: both non-nil (for ?nil atoms)
 }
